@@ -142,7 +142,7 @@ def set_order(ctx):
                     if isinstance(b, (ast.Break, ast.Return)):
                         ok, why = False, 'early exit depends on the order'
                 ctx.require(ok, 'C18.set', 'loop over a signal\'s asset list in %s only touches per-asset state' % fn.qn, fn.site(node), why, key='C18.set|assets-loop|%s' % fn.qn)
-    ctx.floor('C18.set', 'loops over Signal.assets examined', n, 2)
+    ctx.floor('C18.set', 'loops over Signal.assets examined', n, 1)
 
 
 def _keyed_by(call, lv):
@@ -329,7 +329,11 @@ def shared_state(ctx):
             if (isinstance(n, ast.Attribute) and n.attr == 'PRINT_EVENTS' and isinstance(n.ctx, ast.Load)) or (isinstance(n, ast.Name) and n.id == 'PRINT_EVENTS' and isinstance(n.ctx, ast.Load)):
                 pm = pm or parent_map(fn.node)
                 p = pm.get(n)
-                ok = isinstance(p, ast.If) and p.test is n and not p.orelse and all(
+                # `if PRINT_EVENTS:` or `if <side-effect-free test> and PRINT_EVENTS:` whose body only prints
+                holder = n
+                if isinstance(p, ast.BoolOp) and isinstance(p.op, ast.And) and not any(isinstance(x, ast.Call) for v in p.values for x in ast.walk(v)):
+                    holder, p = p, pm.get(p)
+                ok = isinstance(p, ast.If) and p.test is holder and not p.orelse and all(
                     isinstance(b, ast.Expr) and isinstance(b.value, ast.Call) and isinstance(b.value.func, ast.Name) and b.value.func.id == 'print' for b in p.body)
                 guards += 1
                 ctx.require(ok, 'C18.shared', 'the print switch only guards print statements (%s)' % fn.qn, fn.site(n),
